@@ -34,7 +34,7 @@ def run_c09(unit):
     (npos, nkwo), maxpos, maxkw = _scope(mode)
     shape = S.shapes(npos, nkwo)[idx]
     entered = []
-    cfgs = K.configs()
+    cfgs = K.configs(include_chains=True)
     kms = [K.make_keymap(c) for c in cfgs]
     out = {'evaluations': 0, 'distinct': 0, 'violations': [], 'samples': [], 'counters': {'bindings': 0, 'calls': 0}}
     _, I, _ = K._mods()
@@ -165,7 +165,7 @@ def run_c10(unit):
     (npos, nkwo), maxpos, maxkw = _scope(mode)
     shape = S.shapes(npos, nkwo)[idx]
     entered = []
-    cfgs = [c for c in K.configs(include_builtin_hash=False, include_named_encoding=True) if K.info_preserving(c, shape)]
+    cfgs = [c for c in K.configs(include_builtin_hash=False, include_named_encoding=True, include_chains=True) if K.info_preserving(c, shape)]
     kms = [K.make_keymap(c) for c in cfgs]
     out = {'evaluations': 0, 'distinct': 0, 'violations': [], 'samples': [], 'counters': {'calls': 0}}
     _, I, _ = K._mods()
@@ -266,7 +266,7 @@ def _dec(d):
 
 def klass_c10(shape, form, cfg, lone):
     kind, flat, typed, sentinel = cfg
-    if kind == 'stringmap' and flat and not typed and lone:
+    if (kind == 'stringmap' or kind.startswith('chain:stringmap>')) and flat and not typed and lone:
         # keymap.encode unwraps a 1-tuple of a "fast type" before the outer encoder runs; str() then merges 1 and '1'
         return 'flat stringmap: a lone extra positional of a fast type is unwrapped before str()'
     return '%s %s%s%s; %s' % (kind, 'flat' if flat else 'non-flat', ' typed' if typed else '', ' sentinel' if sentinel else '',
